@@ -89,6 +89,8 @@ pub fn gen_c03(seed: u64, thorough: bool) -> Plan {
     f.up = up.iter().flat_map(|s| [Op::Write(*s), Op::Pause(5)]).collect();
     f.down = down.iter().flat_map(|s| [Op::Write(*s), Op::Pause(5)]).collect();
     let vmess_options: u8 = 1 | (g.below(2) as u8 * 4) | (g.below(2) as u8 * 8) | (g.below(2) as u8 * 16);
+    // the encoder mode has nothing to do for VMess: one in three of those seeds compares a stream longer than the 16-bit chunk counter
+    let mode = if mode == "encoder" && proto == Proto::Vmess && (seed / MODES.len() as u64 / cells.len() as u64) % 3 == 0 { "vmess-long" } else { mode };
     Plan {
         property: "C03".into(),
         scenario: "interop".into(),
@@ -516,6 +518,106 @@ fn encoder_limits(plan: &Plan) -> Vec<Violation> {
     v
 }
 
+/// VMess body streams longer than the 16-bit chunk counter: the library's body codec against the reference for
+/// 65536 + 40 chunks in one direction (the counter wraps to 0 - the protocol defines it so - and both ends must agree
+/// on that), library -> reference and reference -> library, request and response direction.
+fn vmess_long(plan: &Plan) -> (Vec<Violation>, u64) {
+    use bytes::BytesMut;
+    use octo_squirrel::codec::vmess::aead::AEADBodyCodec;
+    use octo_squirrel::protocol::vmess::VERSION;
+    use octo_squirrel::protocol::vmess::header::RequestCommand;
+    use octo_squirrel::protocol::vmess::header::RequestHeader;
+    use octo_squirrel::protocol::vmess::header::RequestOption;
+    use octo_squirrel::protocol::vmess::header::SecurityType;
+    use octo_squirrel::protocol::vmess::session::ClientSession;
+    use octo_squirrel::protocol::vmess::session::ServerSession;
+    let mut v = Vec::new();
+    let mut g = Gen::new(plan.seed, 303);
+    let chacha = plan.config.cipher.contains("chacha");
+    let options = plan.extra["vmess_options"].as_u64().unwrap_or(1) as u8;
+    let cell = format!("vmess/{}", plan.config.cipher);
+    let mut iv = [0u8; 16];
+    let mut key = [0u8; 16];
+    g.fill(&mut iv);
+    g.fill(&mut key);
+    let chunks = (1usize << 16) + 40;
+    let header = RequestHeader::new(
+        VERSION,
+        RequestCommand::TCP,
+        RequestOption::from_mask(options),
+        if chacha { SecurityType::Chacha20Poly1305 } else { SecurityType::Aes128Gcm },
+        octo_squirrel::protocol::address::Address::Domain("long.c03.test".to_owned(), 443),
+        [7; 16],
+    );
+    let req = refimpl::vmess::Request { body_iv: iv, body_key: key, resp_auth: 0x5a, options, security: if chacha { refimpl::vmess::SEC_CHACHA20 } else { refimpl::vmess::SEC_AES128GCM }, command: 1, addr: Addr::Name(b"long.c03.test".to_vec(), 443), padding: 0 };
+    let sessions = || {
+        let mut raw = [0u8; 33];
+        raw[..16].copy_from_slice(&iv);
+        raw[16..32].copy_from_slice(&key);
+        raw[32] = 0x5a;
+        (ClientSession::from(&raw[..]), ServerSession::new(iv, key, 0x5a))
+    };
+    let pay = |i: usize| -> Vec<u8> { (0..1 + i % 3).map(|k| (i * 7 + k) as u8).collect() };
+    let mut evals = 0u64;
+    for response in [false, true] {
+        let dir = if response { "s2c" } else { "c2s" };
+        // library seals, reference opens
+        let (mut client, mut server) = sessions();
+        let enc = if response { AEADBodyCodec::new_encoder(&header, &mut server) } else { AEADBodyCodec::new_encoder(&header, &mut client) };
+        let mut reference = if response { refimpl::vmess::response_body(&req) } else { refimpl::vmess::request_body(&req) };
+        match enc {
+            Err(e) => v.push(Violation::new("C03", format!("C03/vmess-long/encoder-setup/{cell}/{dir}"), e.to_string())),
+            Ok(mut enc) => {
+                for i in 0..chunks {
+                    let expect = pay(i);
+                    let mut wire = BytesMut::new();
+                    let r = if response { enc.encode_payload(BytesMut::from(&expect[..]), &mut wire, &mut server) } else { enc.encode_payload(BytesMut::from(&expect[..]), &mut wire, &mut client) };
+                    evals += 1;
+                    let bad = match r {
+                        Err(e) => Some(format!("the library failed to encode: {e}")),
+                        Ok(_) => match reference.feed(&wire) {
+                            Err(e) => Some(format!("the strict reference refuses it: {e}")),
+                            Ok(got) if got.len() != 1 || got[0] != expect => Some(format!("the reference recovered {} chunks instead of the one written", got.len())),
+                            Ok(_) => None,
+                        },
+                    };
+                    reference.used.clear();
+                    if let Some(e) = bad {
+                        v.push(Violation::new("C03", format!("C03/vmess-long/reference-rejects-library/{cell}/{dir}"), format!("chunk #{i} of a long stream (option mask {options:#04x}): {e}")));
+                        break;
+                    }
+                }
+            }
+        }
+        // reference seals, library opens
+        let (mut client, mut server) = sessions();
+        let dec = if response { AEADBodyCodec::new_decoder(&header, &mut client) } else { AEADBodyCodec::new_decoder(&header, &mut server) };
+        let mut reference = if response { refimpl::vmess::response_body(&req) } else { refimpl::vmess::request_body(&req) };
+        match dec {
+            Err(e) => v.push(Violation::new("C03", format!("C03/vmess-long/decoder-setup/{cell}/{dir}"), e.to_string())),
+            Ok(mut dec) => {
+                for i in 0..chunks {
+                    let expect = pay(i);
+                    let mut wire = BytesMut::from(&reference.encode_chunk(&expect)[..]);
+                    let r = if response { dec.decode_payload(&mut wire, &mut client) } else { dec.decode_payload(&mut wire, &mut server) };
+                    evals += 1;
+                    let bad = match r {
+                        Err(e) => Some(format!("the library refuses it: {e}")),
+                        Ok(None) => Some("the library decoded nothing from a complete chunk".to_owned()),
+                        Ok(Some(got)) if got[..] != expect[..] || !wire.is_empty() => Some(format!("the library recovered {} bytes ({} left over) instead of {}", got.len(), wire.len(), expect.len())),
+                        Ok(Some(_)) => None,
+                    };
+                    if let Some(e) = bad {
+                        v.push(Violation::new("C03", format!("C03/vmess-long/library-rejects-reference/{cell}/{dir}"), format!("chunk #{i} of a long stream (option mask {options:#04x}): {e}")));
+                        break;
+                    }
+                }
+            }
+        }
+    }
+    (v, evals)
+}
+
 fn addr_eq_host(a: &Option<Addr>, f: &TcpFlow) -> bool {
     a.as_ref() == Some(&flow_addr(f))
 }
@@ -531,10 +633,17 @@ pub fn execute_c03(plan: &Plan) -> Outcome {
             "ref-to-server" => (ref_to_server(plan, &mut g).await, Vec::new()),
             "udp-client-to-ref" => (udp_client_to_ref(plan, &mut g).await, Vec::new()),
             "udp-ref-to-server" => (udp_ref_to_server(plan, &mut g).await, Vec::new()),
+            "vmess-long" => (Seen::default(), Vec::new()),
             _ => (Seen::default(), encoder_limits(plan)),
         }
     });
     let (seen, mut v) = out.result.clone();
+    let mut long_evals = 0u64;
+    if mode == "vmess-long" {
+        let (lv, n) = vmess_long(plan);
+        v.extend(lv);
+        long_evals = n;
+    }
     let sig = |oracle: &str| format!("C03/{oracle}/{cell}/{mode}");
     let limit = if plan.config.proto == Proto::Shadowsocks && !is_2022(&plan.config.cipher) { 0x3FFF } else { 0xFFFF };
     if let Some(e) = &seen.startup_err {
@@ -635,11 +744,11 @@ pub fn execute_c03(plan: &Plan) -> Outcome {
         polls: out.polls,
         sim_ns: out.sim_ns,
         stats: crate::report::world_stats(&out.world),
-        nontrivial: !seen.ref_payload.is_empty() || !seen.ref_dgrams.is_empty() || mode == "encoder",
+        nontrivial: !seen.ref_payload.is_empty() || !seen.ref_dgrams.is_empty() || mode == "encoder" || mode == "vmess-long",
         case_hash: out.poll_hash ^ crate::scen_tcp::plan_shape_hash(plan) ^ plan.seed,
         probes,
         panics: out.panics,
-        extra_evaluations: 0,
+        extra_evaluations: long_evals / 1000,
         extra_cases: Vec::new(),
     }
 }
